@@ -12,6 +12,11 @@ GLOBAL_ASSUMPTIONS = [
 
 PROPS = {}
 
+# unit groups: a property is checked on EVERY unit holding a function its statement depends on (callers see contracts only, so a change inside a callee
+# is noticed only by the unit that verifies the callee's body)
+SCAN = ['u_dfa', 'u_mode', 'u_iter', 'u_api']
+BUILD = ['u_nfa', 'u_mp', 'u_sub', 'u_elim', 'u_mini', 'u_glue', 'u_lang', 'u_build', 'u_reg']
+
 
 def thorough_extra(prop, seed, results):
     """thorough tier: the replay searcher is run proactively as a cross-check of the SPECIFICATION (not as a decider):
@@ -58,35 +63,35 @@ ITER = 'fm_inv(iterator): cursor on a char boundary of the input, line_offsets s
 UTF8 = 'UTF-8 bridge axioms (units/common/str_prelude.rs): byte offsets of char prefixes are char boundaries, byte length = sum of encoded lengths, slicing at such an offset splits the char sequence there'
 C02DEP = 'every scan-side statement is over the relations acc / la_ok / cand of the compiled automaton (units/common/dfa_match.rs). What these mean for the patterns is PROVED in unit U-build: theorem_scanner_cand: for mode k of a scanner built by ScannerImpl::try_from, cand(core(dfa), cls, text, l, tid) <==> p_cand(patterns of mode k, lf, text, l, tid) (some pattern with token type tid matches the first l characters and the lookahead of the LAST pattern with that token type that carries one agrees with the rest), under the hypotheses of C02: cls_ok (class predicate = leaf meaning on the final registry), lf_respects, the parser (spec_parse), the size assumptions modes_fit'
 
-reg('C01', ['u_dfa', 'u_mode', 'u_iter', 'u_build', 'u_c01find', 'u_nfa', 'u_mp', 'u_sub', 'u_elim', 'u_mini', 'u_glue', 'u_lang', 'u_reg'],
+reg('C01', SCAN + BUILD + ['u_c01find'],
     'find_from ensures find_post (longest accepted non-empty prefix; ties -> first in terminal_ids) for every wf automaton, class predicate and input; ScannerImpl::find_from/peek_from the same for the active mode; next_match ensures is_next_tok: the token is the find_post outcome at the first char index >= cursor that has any candidate, skipped positions have none, spans absolute (add_offset), cursor moves to the token end; None only if no position has a candidate; lemma_stream_unique: for lookahead-free configurations the whole stream (stream_from = chain of is_next_tok with the mode following the transitions) is a function of configuration, input, position and mode ("exactly the tokens")',
     [WF, CLS, ITER, UTF8, C02DEP, 'add_patterns (token type = pattern index) is not under contract: Vec<Pattern> construction through iterator adapters',
      'KNOWN FINDING D10 (genuine defect, not repaired; known_findings.txt, findings/D10_tie_by_token_type.json): ties are resolved by the first position of the candidate\'s TOKEN TYPE in the mode\'s list (priority_of), which is the position of the pattern only when the token types of the mode are pairwise distinct (theorem_scanner_prio, under tt_distinct); a pattern sharing its token type with an earlier pattern wins ties against the patterns in between. Unit U-c01find carries the obligation without that hypothesis; it fails on every run and is reported as KNOWN-FINDING'],
     technique='Verus function contracts (requires/ensures/loop invariants) on code extracted from /repo each run')
-reg('C04', ['u_dfa', 'u_mode', 'u_iter', 'u_build', 'u_c04find'],
+reg('C04', SCAN + BUILD + ['u_c04find'],
     'a reported token is a cand: accepted by its pattern automaton AND la_ok(tid, rest at token end) (positive: some non-empty prefix of the rest matched by the lookahead automaton; negative: none; empty rest => positive fails); span end = start + own bytes (lookahead never inside); converse: find_post forbids None while a candidate exists; call sites next_match/peek_n establish that the haystack slice and the iterator indices refer to the same text for every offset (ci_at precondition of find_from)',
     [WF, CLS, ITER, UTF8, C02DEP,
      'KNOWN FINDING D9 (genuine defect, not repaired; known_findings.txt, findings/D9_shared_token_type_lookahead.json): the pattern-level reading of C04 (every pattern gated by ITS OWN lookahead, theorem_scanner_cand) holds only for modes in which patterns sharing a token type carry the same lookahead (la_consistent): lookaheads are stored per token type, the last one wins and gates all patterns of that token type (proved: lemma_scanner_cand_last). Unit U-c04find carries the property-faithful obligation without that hypothesis; it fails on every run and is reported as KNOWN-FINDING'])
-reg('C05', ['u_dfa', 'u_build', 'u_c01find'], 'find_post: the reported (length, token type) is one candidate with satisfied lookahead that is no_better-maximal in extent = own bytes + longest positive-lookahead match, ties by first position in terminal_ids; all unwrap/index/overflow obligations of find_from, priority_of, satisfies_lookahead', [WF, CLS, C02DEP, 'the pattern-level reading (which pattern a candidate belongs to, whose lookahead it carries) holds for modes in which patterns sharing a token type carry the same lookahead; otherwise see known finding D9 under C04',
+reg('C05', ['u_dfa', 'u_mode'] + BUILD + ['u_c01find'], 'find_post: the reported (length, token type) is one candidate with satisfied lookahead that is no_better-maximal in extent = own bytes + longest positive-lookahead match, ties by first position in terminal_ids; all unwrap/index/overflow obligations of find_from, priority_of, satisfies_lookahead', [WF, CLS, C02DEP, 'the pattern-level reading (which pattern a candidate belongs to, whose lookahead it carries) holds for modes in which patterns sharing a token type carry the same lookahead; otherwise see known finding D9 under C04',
      'KNOWN FINDING D10 (genuine defect, not repaired; known_findings.txt, findings/D10_tie_by_token_type.json): ties are resolved by the first position of the candidate\'s TOKEN TYPE in the mode\'s list (priority_of), which is the position of the pattern only when the token types of the mode are pairwise distinct (theorem_scanner_prio, under tt_distinct); a pattern sharing its token type with an earlier pattern wins ties against the patterns in between. Unit U-c01find carries the obligation without that hypothesis; it fails on every run and is reported as KNOWN-FINDING'])
 
-reg('C06', ['u_mode', 'u_iter', 'u_api', 'u_build'], 'mode after every operation is the function of (old mode, token type, transition list) the property states: has_transition == lookup in the sorted list; find_from switches, peek_from/has_transition/current_mode do not, set_mode sets, reset gives 0', [WF, 'set_mode(m) is called with m < number of modes (documented precondition)'])
+reg('C06', SCAN + ['u_build'], 'mode after every operation is the function of (old mode, token type, transition list) the property states: has_transition == lookup in the sorted list; find_from switches, peek_from/has_transition/current_mode do not, set_mode sets, reset gives 0', [WF, 'set_mode(m) is called with m < number of modes (documented precondition)'])
 
-reg('C10', ['u_iter'],
+reg('C10', SCAN,
     'set_offset/with_offset(o): o on a char boundary or beyond the input => cursor at min(o, len) on that boundary, offset field clamped, mode/scanner/line_offsets unchanged, nothing else of the old cursor survives (fm_inv re-established from the arguments only); advance_to(p) with p the end of a peeked match lands exactly on p, absolute (lemma_adv_target_boundary); next_match/peek_n contracts are functions of the abstract state only',
     [ITER, UTF8, WF])
 
-reg('C07', ['u_dfa', 'u_mode', 'u_iter', 'u_sub', 'u_mp', 'u_elim', 'u_glue', 'u_mini', 'u_build', 'u_reg'],
+reg('C07', SCAN + ['u_sub', 'u_mp', 'u_elim', 'u_glue', 'u_mini', 'u_build', 'u_reg'],
     'spans non-empty (l >= 1), start/end are byte offsets of char indices of the input (boff), start >= previous end (cursor monotone), Some(m) => cursor strictly advances, None => cursor at end and stays there (no_more); absence of panics while scanning = every index/unwrap/overflow/slice-boundary obligation of the functions under contract. '
     'Build side (partial): every index / unwrap / expect / panic! / overflow obligation and the termination of the build functions under contract (closure layer, multi-pattern union, epsilon-elimination worklists, minimizer, lookahead glue: units U-sub, U-mp, U-elim, U-mini, U-glue) is discharged for automata that fit the 32-bit state ids: the four panic!("State .. not found") / "NFA for target state not found" sites and `.expect("NFA not found")` are unreachable, the worklists terminate; in the minimizer every unwrap (find_group, first(), position(), get_mut), every index and the panic! of renumber_states_in_transitions are unreachable and the refinement loop terminates',
     [WF, CLS, ITER, UTF8, 'build side NOT decided for: regex-syntax parser, ScannerBuilder; create_match_char_class and its unsafe get_unchecked are under contract (unit U-reg); Nfa::try_from_ast is covered by C02/C15 (unit U-nfa: overflow obligations under th_fits); size preconditions th_fits / mp_fits (automata within 32-bit state ids) are assumed, beyond them ids wrap (C17)'])
-reg('C09', ['u_iter', 'u_api'],
+reg('C09', SCAN,
     'position(o): line = 1 + number of line breaks before o and column = o - line start + 1 whenever all line starts up to o are recorded (complete_upto), or the permitted same-line alternative right after a line break; next_match/advance_to record every line start of the consumed region; set_offset recomputes last_char; merge keeps line_offsets sorted, duplicate free, true line starts',
     [ITER, UTF8, 'WithPositions::next itself (generic over the inner iterator) is not under contract; its two calls are position(m.start()) and position(m.end()) after next()'])
-reg('C11', ['u_mode', 'u_iter'],
+reg('C11', SCAN,
     'peek_n: final state equals old state on every field that determines later results (char_indices, offset, line_offsets, last_char, last_position, mode; scanner config same up to scratch buffers); outcome classified exactly: Matches <=> n tokens none switching; MatchesReachedModeSwitch <=> last token has a transition to the reported mode (not entered); MatchesReachedEnd <=> 0 < k < n tokens then no_more; NotFound <=> no token at all; the tokens are toks_from = the same is_next_tok chain next() is specified by',
     [WF, CLS, ITER, UTF8])
-reg('C12', ['u_dfa', 'u_mode', 'u_iter', 'u_api'],
+reg('C12', SCAN,
     'every operation contract gives result and new state as a function of (old abstract state, arguments, immutable configuration): scratch buffers are not part of DfaCore and find_from clears them (its postcondition does not mention their old value); FindMatchesImpl::new yields (input, cursor 0, mode 0) for any scanner value, whatever mode it was in',
     [WF, CLS, ITER, 'Scanner::find_iter hands a clone to the iterator: derived Clone copies (E4 assumption); two iterators share only Arc<..> data that is immutable through & (Rust aliasing rules, type-level argument)'])
 
@@ -157,4 +162,4 @@ reg('C02', ['u_nfa', 'u_sub', 'u_mp', 'u_elim', 'u_glue', 'u_lang', 'u_mini', 'u
      'preconditions: automata fit the 32-bit state ids and have fewer than u32::MAX states (th_fits / mp_fits / la_fit1 and mp_off(all) < u32::MAX: precondition d_wf of the minimizer); Nfa::get_match_transitions indexes the state vector by id, so it is only correct for unshifted automata (n_off == 0), which is how From<Nfa> uses it'],
     level_text='proof that the code implements the four specified constructions exactly (Thompson, union, epsilon elimination, quotient by a stable partition) and chains them from the pattern text to the minimized automaton, lookaheads included; the language theorems of all four are proved at spec level and composed end to end; the parser, the class-predicate layer and the mode/registry layer above are covered only by a bounded stand-in that is run on every check and labelled as such',
     technique='Verus function contracts and loop invariants against spec-level constructions (structural refinement), one abstract epsilon-NFA instantiated for Nfa and MultiPatternNfa + bounded stand-in for the functions out of reach',
-    standin_always=['stream', 'lookahead', 'finite', 'regex'])
+    standin_always=['stream', 'lookahead', 'la_compete', 'finite', 'regex'])
